@@ -121,3 +121,33 @@ def shrink_query(q, fails, budget=300):
             except Exception:  # noqa: BLE001
                 continue
     return q
+
+
+def shrink_text(text, fails, budget=150):
+    """Delta-debugging style minimisation of a string: remove chunks while `fails(candidate)` stays true."""
+    n = 2
+    while len(text) >= 2 and budget > 0:
+        chunk = max(1, len(text) // n)
+        reduced = False
+        i = 0
+        while i < len(text) and budget > 0:
+            cand = text[:i] + text[i + chunk:]
+            budget -= 1
+            ok = False
+            if cand != text:
+                try:
+                    ok = bool(fails(cand))
+                except Exception:  # noqa: BLE001
+                    ok = False
+            if ok:
+                text = cand
+                reduced = True
+            else:
+                i += chunk
+        if reduced:
+            n = max(n - 1, 2)
+        elif chunk == 1:
+            break
+        else:
+            n = min(len(text), n * 2)
+    return text
